@@ -330,9 +330,11 @@ pub fn c14(ctx: &mut Ctx) {
     ctx.rule = "(i) exhaustive small scope: every multigraph with <=N nodes and <=M edges as an edge-insertion sequence (self-loops, parallel edges, every insertion order) x every origin (node or edge) x {bfs,dfs} x {from,to}; (ii) random multigraphs built by generated histories with removals and id reuse, random origins at nodes, edges and aliases. Oracle: the result equals the reference traversal sequence exactly (textbook BFS / pre-order DFS over the element graph, newest connection first). Non-trivial: the origin is an edge, or the result has >=4 elements and contains a node with >=2 outgoing (resp. incoming) edges. Distinct = hash of (graph history, search).".into();
     let (n, m) = ctx.tier.pick((3, 3), (3, 4));
     replay_saved::<SearchCase, _>(ctx, "c14-search", c14_case);
-    c14_small_scope(ctx, n, m);
-    if ctx.tier == Tier::Thorough {
-        c14_small_scope(ctx, 4, 3);
+    if ctx.runs_once_here() {
+        c14_small_scope(ctx, n, m);
+        if ctx.tier == Tier::Thorough {
+            c14_small_scope(ctx, 4, 3);
+        }
     }
     let cases = ctx.tier.pick(40_000, 400_000);
     let (lo, hi) = ctx.tier.pick((10, 60), (10, 90));
@@ -1146,7 +1148,9 @@ pub fn c17(ctx: &mut Ctx) {
     ctx.rule = "(i) exhaustive multigraphs with N nodes and <=M edges x all ordered (origin,destination) pairs x 3 condition sets; (ii) random graphs from generated histories x random endpoints (nodes, edges, missing ids, aliases, equal) x random condition sets without distance; (iii) dense marked graphs (4-9 nodes, n..3n edges, about half of the nodes and edges carry a marker key) x random node pairs x condition sets on the marker (so that alternative routes differ in hops and in cost; the label 'every cheapest path has more hops than the shortest usable path' counts the searches where fewest-hops and minimum-cost disagree). Oracle (validity, not one expected answer): reference Dijkstra over element costs (1 selected, 2 not selected, unusable if the conditions stop; origin free) gives the minimum cost c*; the result must be empty iff no usable path exists / an endpoint is not an existing node / origin == destination, otherwise every returned element passes the conditions and a second Dijkstra constrained to paths whose selected elements are exactly the returned list must reach the destination with cost c*. Non-trivial: a usable path exists, >=2 distinct simple paths connect the pair and some element fails the conditions. Distinct = hash of (graph, search).".into();
     replay_saved::<SearchCase, _>(ctx, "c17-search", c17_case);
     let (n, m) = ctx.tier.pick((3, 3), (3, 4));
-    c17_small_scope(ctx, n, m);
+    if ctx.runs_once_here() {
+        c17_small_scope(ctx, n, m);
+    }
     let cases = ctx.tier.pick(30_000, 300_000);
     let (lo, hi) = ctx.tier.pick((10, 50), (10, 80));
     run_campaign(
